@@ -50,6 +50,7 @@ def run(repo, rep, tier):
     _emission(repo, rep)
     _default_paths(repo, rep)
     _defaults(repo, rep)
+    _value_fields(repo, rep)
     # the expression of a dynamic attribute is entity-decoded ONCE: the
     # statement value is decoded as a whole where the element is visited;
     # the node builder must not decode the parts again (and its three
@@ -1119,3 +1120,51 @@ def _defaults(repo, rep):
                             for k in call[0].keywords)
     rep.check(ok, "R07.5", site, "the chosen set is passed to the program",
               construct="passed", where=L.where(f))
+
+
+def _value_fields(repo, rep):
+    """'the static attribute ... otherwise the dynamic value': what the tag
+    dissection records as the value of an attribute is the WHOLE value --
+    the value groups of the attribute pattern are greedy, unbounded
+    repetitions (a lazy or bounded one records a prefix; the rest of the
+    value survives as loose text behind whatever replaces the attribute)."""
+    from .. import rx
+    import re as _re
+    C = rx.C
+    rc = repo.const("chameleon.parser", "match_single_attribute")
+    pat = rc.pattern if isinstance(rc.pattern, str) else \
+        rc.pattern.decode("latin-1")
+    try:
+        gi = _re.compile(pat, rc.flags).groupindex
+    except _re.error as exc:
+        raise AnalysisError("attribute regex does not compile: %s" % exc)
+    tree = rx.parse(pat, rc.flags)
+    n = 0
+    for gname in sorted(gi):
+        if "value" not in gname:
+            continue
+        loc = rx.locate_group(tree, gi[gname])
+        if loc is None:
+            raise AnalysisError("group %s not found" % gname)
+        body = list(loc[0])
+        reps = [it for it in body if it[0] in (C.MAX_REPEAT, C.MIN_REPEAT)]
+        if not reps and all(it[0] in (C.ASSERT, C.ASSERT_NOT, C.AT)
+                            for it in body):
+            continue            # an empty marker group (value-less attribute)
+        n += 1
+        # what follows the group in its own sequence: a lazy repetition is
+        # whole only if a delimiter it cannot skip comes right behind it
+        seq, idx = loc[1][-1]
+        nxt = seq[idx + 1] if idx + 1 < len(seq) else None
+        delimited = nxt is not None and nxt[0] in (C.GROUPREF, C.LITERAL)
+        ok = len(body) == 1 and len(reps) == 1 and \
+            reps[0][1][1] >= 65535 and (
+                reps[0][0] is C.MAX_REPEAT or delimited)
+        rep.check(ok, "R07.1", "chameleon.parser.match_single_attribute",
+                  "the value group '%s' is one greedy, unbounded repetition: "
+                  "the recorded value is the whole value" % gname,
+                  construct="value-greedy:" + gname,
+                  detail="%s" % [(str(it[0]), it[1][0], it[1][1])
+                                 for it in reps])
+    if n < 2:
+        raise AnalysisError("value groups of the attribute pattern vanished")
